@@ -330,7 +330,7 @@ fn data_src(d: &DataItem, sp: &Spelling) -> String {
     }
 }
 
-fn data_json(d: &DataItem) -> Value {
+pub fn data_json(d: &DataItem) -> Value {
     match d {
         DataItem::Set(v) => json!({"k":"set","v":v}),
         DataItem::Def { label, dir, form } => {
